@@ -6,7 +6,9 @@ import (
 	"sort"
 
 	"github.com/olric-data/olric/internal/cluster/partitions"
+	"github.com/olric-data/olric/internal/protocol"
 	"github.com/olric-data/olric/pkg/storage"
+	"github.com/vmihailenco/msgpack/v5"
 )
 
 // VerifCopy reads the copy of key held by this member in its primary or backup fragment, without
@@ -162,4 +164,60 @@ func (s *Service) VerifDeleteCopy(name, key string, kind partitions.Kind) {
 	f.Lock()
 	defer f.Unlock()
 	_ = f.storage.Delete(hkey)
+}
+
+// VerifEntry is one record of a fragment delivered by VerifMerge.
+type VerifEntry struct {
+	Key     string
+	Value   []byte
+	TTL, TS int64
+}
+
+// VerifMerge delivers the entries to this member exactly as a fragment hand-over does: they are
+// stored in a scratch fragment, every table of it is exported with the transfer iterator, wrapped in
+// a fragmentPack and sent to this member's own DMAP.MOVEFRAGMENT handler over its RESP listener.
+// The entries must belong to partition partID.
+func (s *Service) VerifMerge(name string, kind partitions.Kind, partID uint64, entries []VerifEntry) error {
+	dm, err := s.getOrCreateDMap(name)
+	if err != nil {
+		return err
+	}
+	f, err := dm.newFragment()
+	if err != nil {
+		return err
+	}
+	defer f.Close()
+	for _, en := range entries {
+		e := f.storage.NewEntry()
+		e.SetKey(en.Key)
+		e.SetValue(en.Value)
+		e.SetTTL(en.TTL)
+		e.SetTimestamp(en.TS)
+		if err = f.storage.Put(partitions.HKey(name, en.Key), e); err != nil {
+			return err
+		}
+	}
+	it := f.storage.TransferIterator()
+	for it.Next() {
+		payload, index, err := it.Export()
+		if err != nil {
+			return err
+		}
+		value, err := msgpack.Marshal(&fragmentPack{PartID: partID, Kind: kind, Name: name, Payload: payload})
+		if err != nil {
+			return err
+		}
+		cmd := protocol.NewMoveFragment(value).Command(s.ctx)
+		rc := s.client.Get(s.rt.This().String())
+		if err = rc.Process(s.ctx, cmd); err != nil {
+			return err
+		}
+		if err = cmd.Err(); err != nil {
+			return err
+		}
+		if err = it.Drop(index); err != nil {
+			return err
+		}
+	}
+	return nil
 }
